@@ -10,7 +10,7 @@ RULE = ("case = (api, impl, decode, content class, partition of the output into 
         "non-trivial = at least one WRTE chunk; distinct = distinct (api, impl, decode, chunk-count bucket, content class, frag, noise) "
         "signatures. Exhaustive block: every composition of fixed <=10-byte strings containing 2/3/4-byte sequences.")
 ASSUMPTIONS = [
-    "the simulator never emits zero-length WRTE payloads and never sends a reply before the OKAY of the request that caused it",
+    "the simulator never sends a reply before the OKAY of the request that caused it",
     "the device closes a stream only after its last WRTE was acknowledged (adbd stop-and-wait)",
 ]
 SHARDS = {"quick": 8, "thorough": 16}
@@ -41,6 +41,9 @@ def gen_cases(tier, seed):
     for i, b in enumerate([1100, 1500, 40, 2500] if tier == "quick" else [1100, 1500, 40, 2500, 5000, 1024, 1025, 1026, 3000, 10000]):
         for impl in ("sync", "async"):
             yield {"kind": "burst", "burst": b, "impl": impl, "decode": bool(i % 2), "seed": "%d:burst%d" % (seed, b)}
+    # a slow stream's packet arrives exactly while ANOTHER command gives up waiting: it still belongs to its stream
+    for i in range(24 if tier == "quick" else 300):
+        yield {"kind": "straddle", "impl": ("sync", "async")[i % 2], "seed": "%d:sd%d" % (seed, i), "decode": bool((i // 2) % 2)}
     for i in range(n_random):
         yield {"kind": "rand", "i": i, "seed": "%d:%d" % (seed, i), "impl": ("sync", "async")[i % 2], "api": APIS[(i // 2) % 4], "decode": bool((i // 8) % 2),
                "cls": gen.CONTENT_CLASSES[(i // 16) % len(gen.CONTENT_CLASSES)]}
@@ -126,9 +129,16 @@ def run_interleave(case):
                 stats["bytes_compared"] += sum(len(c) for c in scripts[i])
             stats["chunks"] += len(scripts[i])
         stats["interleaved_generators"] = n
+        # stream-protocol view of the same run (used by C04): every payload delivered to a generator was acknowledged, and the stream monitor stayed silent
+        c04 = [{"mechanism": v.rule, "detail": "%s: %s" % (where, v.detail)} for v in sess.monitor.of("C04")]
+        for i in range(n):
+            for ds in sess.sim.all_streams:
+                if ds.dest == b"shell:g%d" % i and ds.acked < len(got[i]):
+                    c04.append({"mechanism": "ack", "detail": "%s: generator %d was handed %d payloads but the host sent only %d OKAYs on that stream" % (where, i, len(got[i]), ds.acked)})
+        stats["okays_for_interleaved_streams"] = sum(ds.acked for ds in sess.sim.all_streams if ds.dest.startswith(b"shell:g"))
         sig = "il|%s|%d|%s|%s" % (impl, n, dims["remote"], ",".join(str(len(s_)) for s_ in scripts)) if stats["interleave_switches"] else None
         sample = {"case": case, "dims": dims, "chunks_per_generator": [len(s_) for s_ in scripts], "switches": stats["interleave_switches"]} if case["seed"].endswith("il7") else None
-        return {"sig": sig, "violations": viol[:3], "stats": stats, "sample": sample}
+        return {"sig": sig, "violations": viol[:3], "stats": stats, "sample": sample, "c04": c04}
     finally:
         sess.dispose()
 
@@ -189,6 +199,65 @@ def run_burst(case):
         sess.dispose()
 
 
+def run_straddle(case):
+    """generator A (slow device: a packet every `gap` seconds) is suspended; command B's OPEN is never answered and B gives up after read_timeout_s;
+    A's next packet is read by B exactly when B's deadline has passed.  A must still deliver all its chunks."""
+    from vlib import vclock
+    impl, decode = case["impl"], case["decode"]
+    rng = gen.rng_for("C01sd", case["seed"])
+    dims = {"maxdata": 4096, "remote": rng.choice(gen.REMOTE_REGIMES), "id_start": 0, "frag": rng.choice(["whole", "minus1"]), "empty_rate": 0.0, "noise": []}
+    sess = gen.make_session(impl, dims, case["seed"])
+    stats = {"bytes_compared": 0, "chunks": 0, "max_chunks": 0, "monitor_side_observations": 0, "straddle_cases": 1, "packets_read_past_the_deadline": 0}
+    viol = []
+    try:
+        sim = sess.sim
+        # (the transport timeout is clamped to read_timeout_s = 1.0, so a packet can only be read past the deadline if an earlier one used up part of it)
+        gap = rng.choice([0.6, 0.7, 0.9])
+        chunks = [b"a%d:" % k + bytes(rng.getrandbits(8) for _ in range(rng.choice([0, 3, 40]))) for k in range(rng.randint(4, 6))]
+        sim.scripts[b"shell:slowa"] = list(chunks)
+        sim.scripts[b"shell:never"] = [b"never"]
+        sim.wrte_delay = gap
+        sim.window = 10            # the device does not wait for the acknowledgement of one chunk before it sends the next
+        vclock.install(sess.clock)
+        g = sess.dev.streaming_shell("slowa", decode=decode)
+        if impl == "sync":
+            def nxt():
+                return next(g)
+            stop = StopIteration
+        else:
+            def nxt():
+                return sess.loop.run_until_complete(g.__anext__())
+            stop = StopAsyncIteration
+        got = [nxt()]
+        sim.mute_next_opens = 1
+        n_dev = len(sim.dev_log)
+        t0 = sess.clock.now()
+        out = sess.call("shell", "never", decode=False, read_timeout_s=1.0, transport_timeout_s=2.0)
+        stats["packets_read_past_the_deadline"] = sum(1 for (_, p_) in sim.dev_log[n_dev:] if p_.cmd == "WRTE")
+        sim.mute_streams.clear()
+        where = "%s: streaming_shell A (a packet every %.1f s) suspended after 1 chunk; shell B (OPEN never answered, read_timeout_s=1.0) gave %s after %.2f s and read %d packet(s) of A meanwhile" % (
+            impl, gap, out.brief(50), sess.clock.now() - t0, stats["packets_read_past_the_deadline"])
+        if out.ok:
+            viol.append({"mechanism": "straddle-other-command", "detail": where})
+        try:
+            while True:
+                got.append(nxt())
+        except stop:
+            pass
+        except Exception as e:  # noqa
+            viol.append({"mechanism": "straddle-raised:%s" % type(e).__name__, "detail": "%s; then A raised %s after %d of %d chunks" % (where, str(e)[:80], len(got), len(chunks))})
+        exp = [c.decode("utf8", "backslashreplace") for c in chunks] if decode else chunks
+        if not viol and got != exp:
+            viol.append({"mechanism": "straddle-wrong-output", "detail": "%s; A yielded %d of %d chunks: %.80r" % (where, len(got), len(chunks), got)})
+        elif not viol:
+            stats["bytes_compared"] = sum(len(c) for c in chunks)
+        stats["chunks"] = len(chunks)
+        return {"sig": "straddle|%s|%s|%.1f|%d" % (impl, decode, gap, len(chunks)) if stats["packets_read_past_the_deadline"] else None, "violations": viol[:2], "stats": stats,
+                "sample": {"case": case, "where": where} if case["seed"].endswith("sd3") else None}
+    finally:
+        sess.dispose()
+
+
 def run_late(case):
     """an OPEN that the device answers only after the host gave up: the late answer must not leak into the next command"""
     impl, api, decode = case["impl"], case["api"], case["decode"]
@@ -240,6 +309,8 @@ def run_case(case):
         return run_late(case)
     if case["kind"] == "burst":
         return run_burst(case)
+    if case["kind"] == "straddle":
+        return run_straddle(case)
     api, decode, impl = case["api"], case["decode"], case["impl"]
     if case["kind"] == "comp":
         s = EXH_STRINGS[case["string"]]
@@ -260,6 +331,11 @@ def run_case(case):
         large_max = rng.choice([20000, 70000, 300000]) if cls == "large" else 0
         data = gen.content(cls, rng, large_max=large_max)
         chunks = gen.partition(data, rng, cap=1024 * 1024)
+        if rng.random() < 0.12:
+            # WRITE packets with an empty payload are still packets: streaming_shell yields them, the others are unaffected
+            chunks = list(chunks)
+            for _ in range(rng.randint(1, 3)):
+                chunks.insert(rng.randint(0, len(chunks)), b"")
     sess = gen.make_session(impl, dims, case.get("seed", "comp%d" % case.get("mask", 0)))
     try:
         cmd = "cmd-%s" % (case.get("i", case.get("mask")))
@@ -292,7 +368,7 @@ def run_case(case):
         else:
             st = main[0]
             if st.written != list(chunks) and out.ok:
-                violations.append({"mechanism": "harness-self-check", "detail": "device wrote %d of %d scripted payloads although the call returned" % (len(st.written), len(chunks))})
+                violations.append({"mechanism": "returned-before-device-finished", "detail": "device wrote %d of %d scripted payloads although the call returned" % (len(st.written), len(chunks))})
             exp = expected(api, decode, st.written if out.ok else chunks)
             if not out.ok:
                 violations.append({"mechanism": "raised:%s" % out.exc_name(), "detail": "%s(%r, decode=%s) raised %s; device wrote %d chunks" % (api, cmd, decode, out.brief(200), len(chunks))})
